@@ -138,11 +138,18 @@ Definition kernel_table_wo (n : nat) (a : axis) (lay : list (list nat)) (draws :
 Definition subsample_counts (n : nat) (a : axis) (lay : list (list nat)) (draws : list (list Z)) (t : table) : table :=
   drop_nonpositive (other a) (drop_nonpositive a (kernel_table_wo n a lay draws t)).
 
-Definition subsample_replace (a : axis) (lay : list (list nat)) (draws : list (list Z)) (t : table) : result table :=
+(* kernel + eliminate_zeros + the two closing filters, on the table the kernel is handed *)
+Definition subsample_replace_core (a : axis) (lay : list (list nat)) (draws : list (list Z)) (t : table) : result table :=
   match rep_vecs (axis_vecs a t) lay draws with
   | None => RErr E_VALUE
   | Some vs => ROk (drop_nonpositive (other a) (drop_nonpositive a (with_axis_vecs a t vs)))
   end.
+
+(* with replacement (table.py:3057-3060): the vectors without counts are filtered out BEFORE the
+   kernel sees the table (the kernel raises on them, see Props/C12.v replace_kernel_needs_prefilter);
+   [lay] is the layout of the filtered table *)
+Definition subsample_replace (a : axis) (lay : list (list nat)) (draws : list (list Z)) (t : table) : result table :=
+  subsample_replace_core a lay draws (drop_nonpositive a t).
 
 (* ids = table.ids(axis).copy(); rng.shuffle(ids); subset = set(ids[:n]);
    table.filter(lambda v, i, md: i in subset, axis); then the closing filter on the other axis *)
